@@ -27,6 +27,10 @@ Members2 == [a \in Addrs |-> IF all'[a] = NoObj THEN "none" ELSE otype'[all'[a]]
 EStep(rec) == hist' = Append(hist, rec @@ [obs |-> Obs', open |-> OpenAfter, members |-> Members2,
                                             up |-> up', snapAddrs |-> AddrsOf(snap'), idx |-> idx'])
 
+\* objects of the round for which a MarkHost* call went through its CAS although they are no
+\* longer the stored object of their address
+StaleMarked == {o \in StaleInRound : flag'[o] # flag[o]}
+
 KindEnabled(k) ==
   CASE k = "op"     -> nops < MaxOps /\ nobj < MaxObj
     [] k = "conn"   -> nconn < MaxConns
@@ -57,8 +61,8 @@ EGenNext ==
           /\ EStep([op |-> "ReplaceAll", a |-> 0, t |-> "", f |-> f, win |-> {"replace-all"},
                     must |-> ConnInfo(elast'.must), closed |-> Ids(elast'.closed)])
      \/ \E a \in Addrs : kind = "toggle" /\ Toggle(a) /\ EStep([op |-> "Toggle", a |-> a, win |-> {}])
-     \/ kind = "round" /\ Round /\ EStep([op |-> "Round", win |-> IF StaleInRound = {} THEN {} ELSE {"stale-object-mark"},
-                        stale |-> {oaddr[o] : o \in StaleInRound}, probed |-> {oaddr[o] : o \in snap},
+     \/ kind = "round" /\ Round /\ EStep([op |-> "Round", win |-> IF StaleMarked = {} THEN {} ELSE {"stale-object-mark"},
+                        stale |-> {oaddr[o] : o \in StaleMarked}, probed |-> {oaddr[o] : o \in snap},
                         closed |-> Ids(elast'.closed)])
      \/ kind = "conn" /\ Conn /\ EStep([op |-> "Conn", id |-> elast'.id, win |-> {},
                        chosen |-> IF elast'.chosen = NoObj THEN 0 ELSE oaddr[elast'.chosen],
@@ -70,6 +74,16 @@ EFinish ==
   /\ PrintT("@@BEH " \o ToJson(hist))
   /\ finished' = TRUE
   /\ UNCHANGED <<vars, evars, hist, kind>>
+
+\* directed behaviours: exhaustive search (VIEW EGenView) with a trap invariant; the shortest
+\* behaviour into the window is printed and TLC stops with the (expected) violation
+EGenView == <<vars, evars, finished, kind>>
+Trapped == PrintT("@@TRAP " \o ToJson(hist)) /\ FALSE
+\* a relay has to be closed because its host was removed
+TrapLatch == ~(elast.kind = "op" /\ elast.must # {}) \/ Trapped
+\* a connection arrives after a round delivered a mark with a replaced / removed object
+TrapStaleMark ==
+  ~(elast.kind = "conn" /\ \E i \in 1..Len(hist) : hist[i].op = "Round" /\ hist[i].stale # {}) \/ Trapped
 
 EGenSpec == EGenInit /\ [][ChooseKind \/ EGenNext \/ EFinish]_egvars
 =============================================================================
